@@ -197,6 +197,10 @@ def handleMem (s : Mem) : List String → Option (Mem × String)
   | ["mq", ps] => some (s, memQuery s (parseNats ps))
   | ["mq"] => some (s, memQuery s [])
   | ["mdump"] => some (s, memDump s)
+  -- C05chan: references held when `nOpen` readers are open and the writer holds
+  -- `w` itself — in the model only open readers (`DReader.holds` / `mRefs`) and the
+  -- writer hold references
+  | ["c5refs", _, nOpen, w] => some (s, s!"refs {nOpen.toNat! + w.toNat!}")
   | _ => none
 
 def stepLine (st : St) (line : String) : St × List String :=
